@@ -3,7 +3,9 @@
 //! The orchestrator (`/verif/check`) renders case + result as Coq terms and
 //! lets the Coq models judge them.
 
+mod dynpipe;
 mod engines;
+mod events;
 mod util;
 
 use std::io::{BufRead as _, Write as _};
@@ -13,6 +15,7 @@ fn main() {
     let f: fn(&serde_json::Value) -> serde_json::Value = match engine.as_str() {
         "retryopts" => engines::retryopts::run,
         "filter" => engines::filter::run,
+        "combinators" => engines::combinators::run,
         "outline" => engines::outline::run,
         "stepmatch" => engines::stepmatch::run,
         other => {
